@@ -2,7 +2,7 @@
 
 import ast
 
-from ..absint import NONE, NOTNONE, TOP, DefaultDomain, Interp, Result, State, exc, val
+from ..absint import FALSE, NONE, NOTNONE, TOP, TRUE, DefaultDomain, Interp, Result, State, exc, val
 from ..alias import Aliases
 from ..astutil import FUNC_TYPES, attr_chain, dotted, norm, walk_shallow
 from ..loader import AnalysisError, Undecided
@@ -468,6 +468,48 @@ def check_truth_tables(ctx):
     ctx.floor("R-TRUTH-TABLE", 20, "combinator expressions")
 
 
+def _kinds_by_running(ctx, c, f):
+    """Kinds of the values match() returns when it is run as written on an unknown matchee, every attribute of the matcher
+    unknown: None / Mismatch / Bool / Text / Number / Collection / Unknown -- or None when the run cannot be followed."""
+    from .. import effects
+    from ..loader import Undecided
+    from ..objects import ObjectDomain, is_inst
+    mm = {k.name for k in mismatch_classes(ctx)}
+    params = [a.arg for a in f.args.args][1:]
+    if not params:
+        return None
+
+    class Dom(ObjectDomain):
+        lazy_generators = False
+        strict_calls = False
+    try:
+        res = effects.run(ctx, Dom(ctx.classes, log_cap=20), f, c, {params[0]: ("sym", "the matchee")}, state=State(), depth=5)
+    except (Undecided, AnalysisError, RecursionError):
+        return None
+    if not res:
+        return None
+    kinds = set()
+    for r in res:
+        if r.kind != "val":
+            continue
+        v = r.value
+        if v == NONE:
+            kinds.add("None")
+        elif is_inst(v):
+            kinds.add("Mismatch" if {k.name for k in ctx.classes.mro(v[2])} & (mm | {"Mismatch", "MismatchDecorator"}) else "Other")
+        elif isinstance(v, tuple) and v[:1] == ("new",) and isinstance(v[1], str):
+            kinds.add("Mismatch" if v[1].split(".")[-1] in mm else "Other")
+        elif v in (TRUE, FALSE) or v == ("bool",):
+            kinds.add("Bool")
+        elif isinstance(v, tuple) and v[:1] == ("const",):
+            kinds.add("Text" if isinstance(v[1], (str, bytes)) else "Number")
+        elif isinstance(v, tuple) and v[:1] in (("tuple",), ("kwdict",), ("set",)):
+            kinds.add("Collection")
+        else:
+            kinds.add("Unknown")
+    return kinds
+
+
 def run(ctx):
     ctx.rule("R-RETURN-KIND", "match() returns None, a Mismatch or a delegate's verdict -- never bool / text / collection")
     ctx.rule("R-TRUTH-TABLE", "combinator verdicts are the declared truth function of their components' verdicts")
@@ -490,6 +532,16 @@ def run(ctx):
         ctx.analysed(f)
         kinds = function_return_kinds(ctx, c.module, f)
         bad = kinds - allowed
+        if bad:
+            # the inference names kinds from the shape of the return expressions; where it cannot name one ("Other"), or names the
+            # kind of a *part* of an expression (`(not ok or None) and Mismatch(...)`), what match() returns is read off a run
+            ran = _kinds_by_running(ctx, c, f)
+            if ran is not None and ran <= {"None", "Mismatch"}:
+                kinds, bad = ran, set()      # every value the run returns is None or a mismatch object: the inference was imprecise
+            elif ran is not None:
+                bad = (bad - {"Other"}) | (ran - allowed - {"Unknown"})
+            else:
+                bad = bad - {"Other"}
         ctx.check("R-RETURN-KIND", f"{c.name}.match returns {sorted(kinds)}", f, not bad,
                   f"{c.name}.match can return {sorted(bad)}: callers test the verdict with `is None` / truthiness and expect a Mismatch object",
                   construct=f"{c.module.name}:{c.name}.match::kinds")
